@@ -1,6 +1,7 @@
 import Model.ValueSpec
 import Model.MarshalInterp
 import Model.MarshalRepresent
+import Model.MarshalHeap
 import Driver.Util
 namespace Driver.C12
 open Util
@@ -415,6 +416,138 @@ def runDec (f : Nat → CqlTy → Option Bytes → GoTy → String) (ws : List S
           | _ => "bad-op"))
   | [] => "bad-op"
 
+
+/-! ## held results (ops `held`, `conn`): the heap machine of Model/MarshalHeap.lean, discipline `fresh`
+    (the code that exists), calls answered by the SPECIFICATION (`MarshalHeap.callSig`).
+
+    `held <procs> <step> ; <step> ; …` — steps:
+      `h <slot> <s|g> p T V`        Marshal and KEEP the returned slice (`g`: the call runs in another goroutine, joined)
+      `x <s|g> p T V`               Marshal, result dropped at once
+      `u <slot> <s|g> p T hex GT`   Unmarshal into a new target of that Go type and KEEP the decoded value
+      `y <s|g> p T hex GT`          Unmarshal, result dropped
+      `c <slot>`                    what the holder reads now (bytes / the decoded value)
+      `i <slot>`                    is the caller's memory (every byte slice of the Go value / the data buffer) still what
+                                    it passed?
+      `m <slot> <xx>`               the caller re-uses its input AFTER the call: every byte of every byte slice of the
+                                    Go value (Marshal) / of the data buffer (Unmarshal) `^= xx`
+      `d <slot>`                    drop
+    `conn <proto> <q|b> ; s ; v p T V ; v p T V ; s ; …` — one statement (q) or a batch (b) with these bind values
+      through the real Session.Query / ExecuteBatch → Conn.executeQuery / executeBatch against a scripted peer:
+      the value bytes the peer reads from the EXECUTE / BATCH frame (all values are encoded first, then written:
+      hold 0 … hold n-1, then read 0 … n-1). -/
+
+open MarshalHeap in
+def parseTV3 (ws : List String) : Option (Nat × CqlTy × GoVal) :=
+  match ws with
+  | p :: r => do
+      let p ← p.toNat?
+      let (t, r1) ← pTy (r.length + 1) r
+      match pVal (r1.length + 1) r1 with
+      | some (g, []) => some (p, t, g)
+      | _ => none
+  | [] => none
+
+def parseDec4 (ws : List String) : Option (Nat × CqlTy × GoTy × Bytes) :=
+  match ws with
+  | p :: r => do
+      let p ← p.toNat?
+      match pTy (r.length + 1) r with
+      | some (t, d :: r1) => (match parseHexC d, pGoTy (r1.length + 1) r1 with
+          | some data, some (ty, []) => some (p, t, ty, data)
+          | _, _ => none)
+      | _ => none
+  | [] => none
+
+def splitSteps (ws : List String) : List (List String) :=
+  let r := ws.foldr (fun w (acc : List String × List (List String)) =>
+    if w == ";" then ([], acc.1 :: acc.2) else (w :: acc.1, acc.2)) ([], [])
+  r.1 :: r.2
+
+abbrev HSt := MarshalHeap.St MarshalHeap.Call
+
+def heldStepM (s : HSt) (a : MarshalHeap.Call) (k : Option Nat) : HSt × String :=
+  let ans := match a with
+    | .enc p t g => (match MarshalHeap.specEncode p t g with
+        | none => "err" | some none => "null" | some (some _) => "ok")
+    | .dec p t ty data => (match MarshalHeap.specDecode p t ty data with
+        | none => "err" | some _ => "ok")
+  match k with
+  | some k => (MarshalHeap.step .fresh MarshalHeap.callSig s (.hold k a), ans)
+  | none =>
+    let s' := MarshalHeap.step .fresh MarshalHeap.callSig s (.hold 1000000 a)
+    (MarshalHeap.step .fresh MarshalHeap.callSig s' (.drop 1000000), ans)
+
+def showHeld (s : HSt) (k : Nat) : String :=
+  match s.lookup k, s.chk k with
+  | some sl, some bs =>
+    (match sl.arg with
+     | .enc _ _ _ => (match bs with
+        | [b] => toHexC b
+        | _ => "bad-result")
+     | .dec p t ty data => (match MarshalHeap.specDecode p t ty data with
+        | some g => "ok " ++ showVal (normDeep (MarshalHeap.setLeaves g bs).1)
+        | none => "bad-result"))
+  | _, _ => "none"
+
+def parseHexByte1 (s : String) : Option UInt8 :=
+  match parseHex s with
+  | some [b] => some b
+  | _ => none
+
+def heldStep (s : HSt) (ws : List String) : HSt × String :=
+  match ws with
+  | "h" :: slot :: _ :: r => (match slot.toNat?, parseTV3 r with
+      | some k, some (p, t, g) => heldStepM s (.enc p t g) (some k)
+      | _, _ => (s, "bad-step"))
+  | "x" :: _ :: r => (match parseTV3 r with
+      | some (p, t, g) => heldStepM s (.enc p t g) none
+      | none => (s, "bad-step"))
+  | "u" :: slot :: _ :: r => (match slot.toNat?, parseDec4 r with
+      | some k, some (p, t, ty, data) => heldStepM s (.dec p t ty data) (some k)
+      | _, _ => (s, "bad-step"))
+  | "y" :: _ :: r => (match parseDec4 r with
+      | some (p, t, ty, data) => heldStepM s (.dec p t ty data) none
+      | none => (s, "bad-step"))
+  | ["c", slot] => (match slot.toNat? with
+      | some k => (s, s!"s{k}={showHeld s k}")
+      | none => (s, "bad-step"))
+  | ["i", slot] => (match slot.toNat? with
+      | some k => (match s.lookup k, s.input k with
+          | some sl, some bs => (s, s!"in{k}={if bs == MarshalHeap.callSig.ins sl.arg then "same" else "changed"}")
+          | _, _ => (s, s!"in{k}=none"))
+      | none => (s, "bad-step"))
+  | ["m", slot, xx] => (match slot.toNat?, parseHexByte1 xx with
+      | some k, some x => (MarshalHeap.step .fresh MarshalHeap.callSig s (.mutIn k x), "ok")
+      | _, _ => (s, "bad-step"))
+  | ["d", slot] => (match slot.toNat? with
+      | some k => (MarshalHeap.step .fresh MarshalHeap.callSig s (.drop k), "ok")
+      | none => (s, "bad-step"))
+  | _ => (s, "bad-step")
+
+def runHeld (steps : List (List String)) : String :=
+  let r := steps.foldl (fun (acc : HSt × List String) st => let p := heldStep acc.1 st; (p.1, p.2 :: acc.2))
+    (MarshalHeap.St.init, [])
+  " ; ".intercalate r.2.reverse
+
+/-- `conn`: every `v` step is a bind value: all of them are encoded (held) first, then the frame is written (read) -/
+def runConn (steps : List (List String)) : String :=
+  -- phase 1: hold
+  let r := steps.foldl (fun (acc : HSt × Nat × List (Option Nat) × Bool) st =>
+    let (s, n, ks, bad) := acc
+    match st with
+    | ["s"] => (s, n, none :: ks, bad)
+    | "v" :: tv => (match parseTV3 tv with
+        | some (p, t, g) => (MarshalHeap.step .fresh MarshalHeap.callSig s (.hold n (.enc p t g)), n + 1, some n :: ks, bad)
+        | none => (s, n, ks, true))
+    | _ => (s, n, ks, true)) (MarshalHeap.St.init, 0, [], false)
+  let (s, _, ks, bad) := r
+  if bad then "bad-op" else
+  " ; ".intercalate (ks.reverse.map fun
+    | none => "s"
+    | some k => (match s.lookup k with
+        | some _ => showHeld s k
+        | none => "null"))
+
 def step (_ : Unit) (ws : List String) : Unit × String :=
   ((), match ws with
   | "enc" :: r => runTV (fun p t g => showM (marshal p t g)) r
@@ -424,6 +557,8 @@ def step (_ : Unit) (ws : List String) : Unit × String :=
   | "specdec" :: r => runDec (fun p t data ty => match data with
       | some b => specDecAnswer p t b ty
       | none => "bad-op") r
+  | "held" :: _ :: r => runHeld (splitSteps r)
+  | "conn" :: _ :: _ :: ";" :: r => runConn (splitSteps r)
   | _ => "bad-op")
 
 def init : Unit := ()
